@@ -732,6 +732,9 @@ class ModelMixin2:
                               ordered=ordered and kind != 'set',
                               stages=tuple(stages) + (('filter',) if filtered else ()) + (stage,)))
             if kind == 'dict':
+                for t in templates:
+                    if isinstance(t, TupleV) and len(t.items) == 2:
+                        self.hook('dict-store', s, e, dict=None, key=t.items[0], value=t.items[1])
                 dsym = s.new(DictE(tuple((t.items[0], t.items[1]) for t in templates if isinstance(t, TupleV)), False))
                 final.append((Ref('dict', dsym), s))
             else:
